@@ -321,7 +321,7 @@ def main():
         c.leanchecker(["Cppcms.C19.Props"])
     model = c.model_exe()
     ok_impl = c.impl_build(targets=("cppcms-static", "booster-static"))
-    hbin = c.harness("c19", extra=["-fno-access-control"]) if ok_impl else None
+    hbin = c.harness("c19", extra=["-fno-access-control", "-O0", "-g1"])   # -O0: 3x faster compile of ~70 instantiations if ok_impl else None
     if not (hbin and os.path.exists(model)):
         c.finish()
 
@@ -371,12 +371,14 @@ def main():
             tk = " ".join(toks(t, v))
             ntk = " ".join(toks(t, nv))
             arch = hexs0(py_save(t, nv))
-            for op in ("rt", "save") + (("srt", "ssave") if name in serializable else ()):
+            for op in ("rt", "rt+", "save") + (("srt", "srt+", "ssave") if name in serializable else ()):
+                if op.endswith("+") and i % 3:
+                    continue
                 line = f"{op} {name} {tk}"
                 casesA.append(line)
-                if op == "rt":
+                if op in ("rt", "rt+"):
                     expect[line] = f"ok {ntk} eof=1"
-                elif op == "srt":
+                elif op in ("srt", "srt+"):
                     expect[line] = f"ok {ntk}"
                 else:
                     expect[line] = arch
@@ -393,10 +395,12 @@ def main():
         if len(a) > (6000 if thorough else 1500):
             continue
         casesB.append(f"load {name} {hexs0(a)}")
+        casesB.append(f"load+ {name} {hexs0(a)}")
         if name in serializable:
             casesB.append(f"sload {name} {hexs0(a)}")
+            casesB.append(f"sload+ {name} {hexs0(a)}")
         for m in mutations(rng, a, thorough):
-            casesB.append(f"load {name} {hexs0(m)}")
+            casesB.append(f"load{'+' if rng.random() < 0.15 else ''} {name} {hexs0(m)}")
             if name in serializable and rng.random() < 0.3:
                 casesB.append(f"sload {name} {hexs0(m)}")
         # an archive of one type read as another type
@@ -440,6 +444,7 @@ def main():
     for cs, om in zip(cases, out_m):
         w = cs.split(" ", 2)
         dist[w[0]] = dist.get(w[0], 0) + 1
+        w[0] = w[0].rstrip("+")
         kd = "err" if "err " in om else ("ok" if om.startswith("ok") else "bytes")
         if w[0] in ("load", "sload", "ops"):
             kk = om.split(" @")[0] if w[0] != "ops" else ("err " + om.split("err ")[1].split()[0] if "err " in om else "ok")
@@ -459,7 +464,7 @@ def main():
         if k in crash_idx or o.startswith("<"):
             continue
         w = cs.split()
-        op = w[0]
+        op = w[0].rstrip("+")
         if op in ("rt", "srt", "save", "ssave"):
             if cs in expect and o != expect[cs]:
                 bad.append((k, "round trip / serialization differs from the value (python oracle)"))
@@ -490,7 +495,7 @@ def main():
         for (k, l), o in zip(jl, jout + ["<none>"] * (len(jl) - len(jout))):
             if o != "1":
                 bad.append((k, "Spec.loadOutputOk false on the implementation's result (cursor outside, ill-formed value, or consumed bytes are not the value's serialization)"))
-    c.extra_cov["judged_impl_outputs"] = len(jl) + sum(1 for cs in cases if cs.split()[0] in ("rt", "srt", "save", "ssave", "ops"))
+    c.extra_cov["judged_impl_outputs"] = len(jl) + sum(1 for cs in cases if cs.split(" ", 1)[0].rstrip("+") in ("rt", "srt", "save", "ssave", "ops"))
 
     for k, err in crashes:
         summ = [l.strip() for l in err.splitlines() if "SUMMARY" in l or "runtime error" in l or "ERROR: AddressSanitizer" in l]
